@@ -662,7 +662,11 @@ impl Aml for AddressSpace<u16> {
         sink.word(self.min); /* Min */
         sink.word(self.max); /* Max */
         sink.word(self.translation.unwrap_or(0));
-        let len = self.max - self.min + 1;
+        let len = self
+            .max
+            .checked_sub(self.min)
+            .and_then(|l| l.checked_add(1))
+            .expect("address range size does not fit its width");
         sink.word(len); /* Length */
     }
 }
@@ -679,7 +683,11 @@ impl Aml for AddressSpace<u32> {
         sink.dword(self.min); /* Min */
         sink.dword(self.max); /* Max */
         sink.dword(self.translation.unwrap_or(0)); /* Translation */
-        let len = self.max - self.min + 1;
+        let len = self
+            .max
+            .checked_sub(self.min)
+            .and_then(|l| l.checked_add(1))
+            .expect("address range size does not fit its width");
         sink.dword(len); /* Length */
     }
 }
@@ -696,7 +704,11 @@ impl Aml for AddressSpace<u64> {
         sink.qword(self.min); /* Min */
         sink.qword(self.max); /* Max */
         sink.qword(self.translation.unwrap_or(0)); /* Translation */
-        let len = self.max - self.min + 1;
+        let len = self
+            .max
+            .checked_sub(self.min)
+            .and_then(|l| l.checked_add(1))
+            .expect("address range size does not fit its width");
         sink.qword(len); /* Length */
     }
 }
